@@ -620,8 +620,9 @@ def run(ctx):
                     cache[ck] = oracle(c, be, parse_col(iv, c.n))
                 for (i, kind, e) in cache[ck]:
                     g = "gap" if gap else "nogap"
-                    if e > max_err[g]:
-                        max_err[g] = e
+                    if kind is None or g == "gap":
+                        if e > max_err[g]:
+                            max_err[g] = e
                     if kind is not None:
                         ctx.oracle_failures += 1
                         fails.append((fail_key(c, kind, gap, be), lines[li], iv, {"coefficient": i, "kind": kind, "error_in_units_of_last_limb": e}))
@@ -633,8 +634,31 @@ def run(ctx):
             ctx.cov["exhaustive_scope"] = ("b<=2, sizes<=2 complete; b<=3 sizes<=3 stratified 1/7" if quick
                                            else "b<=3, sizes<=3 complete; b<=4, sizes<=2 complete") + \
                 "; all digit values in [-2^b, 2^b], all offsets/shift amounts in [-(a_bits+2b), a_bits+2b]"
-            ctx.cov["max_error_units_outside_gap"] = max_err["nogap"]
+            ctx.cov["max_error_units_outside_gap_passing_checks"] = max_err["nogap"]
             ctx.cov["max_error_units_in_gap"] = max_err["gap"]
+            # ---- validation of the proposed repair (docs/C08.md): the repaired *model* must satisfy the full
+            # statement on every same-radix gap-region case of this run (oracle on the model's output)
+            rep = [c for c in cases if in_gap(c) and ((c.op == "normalize" and c.p["ab"] == c.p["rb"]) or c.op == "rsh")]
+            rl = []
+            for j, c in enumerate(rep):
+                rl.append(c.line(j, "model").replace(" norm normalize ", " norm normalize_repaired ").replace(" norm rsh ", " norm rsh_repaired "))
+            if rl:
+                rcx, rout, _ = ctx.run_lines(drv, [], rl)
+                bad = 0
+                worst = 0.0
+                for j, c in enumerate(rep):
+                    ov = rout[j].split(" ", 1)[1] if j < len(rout) and " " in rout[j] else "?"
+                    try:
+                        for (_i, kind, e) in oracle(c, "model", parse_col(ov, c.n)):
+                            worst = max(worst, e)
+                            if kind is not None:
+                                bad += 1
+                    except ValueError:
+                        bad += 1
+                ctx.cov["repair_validation"] = {"gap_region_cases_rechecked_on_repaired_model": len(rep), "oracle_failures": bad,
+                                                "max_error_units": worst}
+                if bad:
+                    broken.append(f"repair validation: the repaired model fails the oracle on {bad} gap-region coefficients")
         run_codec(ctx, binp, drv, quick, broken, fails)
 
     # ---- verdicts
